@@ -8,6 +8,8 @@ import contracts.objectives  # noqa: F401
 import contracts.ttp  # noqa: F401
 import bounded.ttp_errors  # noqa: E402
 import bounded.ttp_plan  # noqa: E402
+import bounded.control  # noqa: E402
+import contracts.control  # noqa: E402
 import bounded.bl_reference  # noqa: E402
 import bounded.objectives_oracle  # noqa: E402
 
@@ -93,11 +95,28 @@ PLANS["C13"] = Plan(
                "moptipyapps.tsp.tour_length:tour_length", "moptipyapps.tsp.ea1p1_revn:rev_if_not_worse",
                "moptipyapps.tsp.fea1p1_revn:rev_if_h_not_worse", QO + ":_evaluate"],
     lemmas=["tri_bound"],
+    extra=[contracts.control.prove_c16],
     explanation="one bounds obligation (-len <= index < len, the exact memory-safety condition of numpy/numba indexing) per "
                 "subscript of every njit kernel, discharged under the pre-conditions that the public spaces and constructors "
                 "establish, together with the loop invariants those obligations rest on",
     trusted=["pre-conditions = what PackingSpace/decoders, GamePlanSpace.validate (entries in -n..n incl. self-play), "
              "Permutations and the instance constructors establish (E1, E2)"],
+)
+
+PLANS["C16"] = Plan(
+    "C16", "proof",
+    extra=[contracts.control.prove_c16],
+    bounded=[bounded.control.harness_min_ann],
+    explanation="every controller kernel and system-equation kernel is read from /repo, evaluated symbolically over the reals and "
+                "compared with its documented function: polynomial controllers by polynomial normal form (every monomial of "
+                "degree 1..d exactly once, one parameter each, bijection onto the declared param_dims, no constant term); "
+                "partially linear controllers against 'law of the nearest anchor, first on ties' by z3 non-linear real "
+                "arithmetic per path and anchor; peak controllers and generated ANN programs (captured generator output, per "
+                "architecture) against the network evaluated layer by layer; Stuart-Landau, Lorenz, three-oscillator systems "
+                "against the published equations; constant indices within declared dims; no kernel writes its inputs",
+    trusted=["sympy polynomial arithmetic / z3 nlsat", "IEEE arithmetic treated as real arithmetic (kernels use fastmath)",
+             "parameter layout of partially linear / peak / ANN controllers: block order as documented in this contract"],
+    assumptions=["min_ann controllers (iterative search): bounded stand-in only", "predefined controllers: not covered"],
 )
 
 PLANS["C14"] = Plan(
@@ -137,6 +156,13 @@ PLANS["C05"] = Plan(
 
 
 META = {
+    "C16": {"text": "all polynomial, partially-linear, peak and ANN controller kernels (generated architectures as programs) and "
+                    "the three system-equation kernels proved equal to their documented formulas over the reals for every "
+                    "state/parameter vector; inputs never written; min_ann: bounded stand-in",
+            "note": "real arithmetic instead of IEEE; generated ANNs: bundled shapes plus a seeded sample of architectures per run "
+                    "(thorough: 1500)",
+            "technique": "contract-based deductive verification of straight-line float code (symbolic evaluation of the real AST, "
+                         "polynomial normal form, z3 NRA)"},
     "C13": {"text": "every array subscript of the listed compiled kernels is a proved bounds obligation for all inputs accepted "
                     "by the public spaces/constructors (the kernels run with boundscheck=False, so no test can observe a "
                     "violation); slice assignments and reductions included",
